@@ -209,18 +209,27 @@ func genPortable(r *gen.Rand, maxDepth int) (string, []string) {
 	}
 }
 
+// allFlagOrders lists every ordering of every subset of {g,i,m} (16 strings):
+// the flags argument is a string, and the order in which its characters are
+// written must not matter (15.10.4.1).
+var allFlagOrders = []string{"", "g", "i", "m", "gi", "ig", "gm", "mg", "im", "mi",
+	"gim", "gmi", "igm", "img", "mgi", "mig"}
+
+// genFlags draws a subset of {g,i,m} (each flag with probability 1/3) in a
+// uniformly random order.
 func genFlags(r *gen.Rand) string {
-	f := ""
-	if r.Chance(1, 3) {
-		f += "g"
+	var fs []byte
+	for _, c := range []byte("gim") {
+		if r.Chance(1, 3) {
+			fs = append(fs, c)
+		}
 	}
-	if r.Chance(1, 3) {
-		f += "i"
+	p := r.Perm(len(fs))
+	out := make([]byte, len(fs))
+	for i, j := range p {
+		out[i] = fs[j]
 	}
-	if r.Chance(1, 3) {
-		f += "m"
-	}
-	return f
+	return string(out)
 }
 
 // ------------------------------------------------------------ subjects
